@@ -89,6 +89,23 @@ namespace MEDDLY {
         protected:
             void _compute(node_handle A, oper_item &result);
 
+            /// Does an edge to node child skip a primed level, in an
+            /// identity-reduced relation? If so, the function is zero
+            /// off the diagonal of the skipped level(s).
+            ///     @param  pk      The first primed level below the
+            ///                     origin of the edge, or 0 if none.
+            ///     @param  child   Target node of the edge.
+            inline bool skipsIdentity(int pk, node_handle child) const
+            {
+                if (!argF->isIdentityReduced()) return false;
+                if (0==child) return false;
+                const int cl = ABS(argF->getNodeLevel(child));
+                for (int k=ABS(pk); k>cl; k--) {
+                    if (argF->getLevelSize(-k) > 1) return true;
+                }
+                return false;
+            }
+
         private:
             ct_entry_type* ct;
 #ifdef TRACE
@@ -127,6 +144,11 @@ void MEDDLY::range_templ<RTYPE>::compute(int L, unsigned in,
     out.indentation(0);
 #endif
     _compute(ap, result);
+    if (skipsIdentity(-L, ap)) {
+        oper_item zero(RTYPE::getOpndType());
+        RTYPE::initItem(zero, 0);
+        RTYPE::updateItem(result, zero);
+    }
 }
 
 template <class RTYPE>
@@ -154,12 +176,22 @@ void MEDDLY::range_templ<RTYPE>::_compute(node_handle A, oper_item &r)
     //
     // Do computation
     //
-    unpacked_node* Au = unpacked_node::newFromNode(argF, A, SPARSE_ONLY);
+    // Full unpacking: zero children count as the value zero.
+    unpacked_node* Au = unpacked_node::newFromNode(argF, A, FULL_ONLY);
+    const int Alevel = Au->getLevel();
+    const int pk = (Alevel > 0) ? -Alevel : Alevel+1;
     _compute(Au->down(0), r);
     oper_item tmp(RTYPE::getOpndType());
     for (unsigned i=1; i<Au->getSize(); i++) {
         _compute(Au->down(i), tmp);
         RTYPE::updateItem(r, tmp);
+    }
+    for (unsigned i=0; i<Au->getSize(); i++) {
+        if (skipsIdentity(pk, Au->down(i))) {
+            RTYPE::initItem(tmp, 0);
+            RTYPE::updateItem(r, tmp);
+            break;
+        }
     }
 
     //
